@@ -127,10 +127,10 @@ func runC09(tier string) int {
 	}
 	items = uniq
 	r.Set("contents_x_part_splits", len(items))
-	total := uint64(len(items)) * uint64(len(c09Types)) * c09Origins * 2
+	total := uint64(len(items)) * uint64(len(c09Types)) * c09Origins * 3
 	done := r.Parallel(total, func(w int, idx uint64) {
-		layout := int(idx % 2)
-		x := idx / 2
+		layout := int(idx % 3)
+		x := idx / 3
 		origin := int(x % c09Origins)
 		x /= c09Origins
 		typ := c09Types[x%uint64(len(c09Types))]
@@ -139,6 +139,12 @@ func runC09(tier string) int {
 		sep := " "
 		if layout == 1 {
 			sep = "\n\t\t"
+		}
+		if layout == 2 {
+			if len(it.parts) < 2 {
+				return
+			}
+			sep = " // c1\n\t\t# c2\n\n\t\t// c3\n\t\t"
 		}
 		var qs []string
 		for _, p := range it.parts {
@@ -254,5 +260,5 @@ func runC09(tier string) int {
 		"contents whose terminator would straddle two parts are not generated (the property can be read both ways there)",
 		"for format() origins the source lines are the lines of the exported FormatText's result (its content is C07's business)")
 	return r.Finish(r.Get("evaluations"), r.Get("nontrivial"),
-		"every content of total length <= L over {a, é, space, $, \\, 0, n, p, {, }, newline-inside-literal} split into 1-3 literal parts x 2 layouts (same line / one part per line) x 4 string types x 11 origins (text statement, inline argument, format() of each, poryswitch case selected directly / through '_' / brace form, argument inside an if, after / before a typed inline text in the same command, after typed texts elsewhere); non-trivial = >= 2 parts and a string type")
+		"every content of total length <= L over {a, é, space, $, \\, 0, n, p, {, }, newline-inside-literal} split into 1-3 literal parts x 3 layouts (same line / one part per line / several comment lines between the parts) x 4 string types x 11 origins (text statement, inline argument, format() of each, poryswitch case selected directly / through '_' / brace form, argument inside an if, after / before a typed inline text in the same command, after typed texts elsewhere); non-trivial = >= 2 parts and a string type")
 }
